@@ -45,6 +45,10 @@ def workdir(prop, fresh=True):
 
 def build_harness(race=False):
     """go build the driver against /repo's *current working tree* (replace directive)."""
+    return _build_harness(race)
+
+
+def _build_harness(race=False):
     os.makedirs(BUILD, exist_ok=True)
     gosum = os.path.join(REPO, "go.sum")
     if os.path.exists(gosum):
